@@ -23,6 +23,8 @@ TRUSTED = [
     "multi-pool scripts (ants_mp.py): python splits the log by pool and replays each pool on its own (ants_multi_pool_projection); the configuration used by the "
     "monitors is python's reading of the documented option semantics (eff_pool / eff_task), the one used by the replay is the model's (apo_create / ato_create); "
     "Get1() / Err() are replayed as AnGet2 reads (Get1 = Get2 with the error dropped; models/AntsGetters.v)",
+    "replay driver (ocaml/drv_c07.ml): the log does not order the steps of ONE virtual instant; the driver tries the sorted order greedily and, if that rejects, "
+    "searches all orders of the instant's enabled events (node budget 60000): a history is accepted iff some order is a run of the model",
 ]
 
 
